@@ -774,7 +774,7 @@ func attackPartialGlue(cr *caseRun) (question, *dns.Msg) {
 		cr.judgeTrigger("attack", q2, reply2, from2)
 		cr.dbg("attack/window", q2, reply2, from2)
 		tailed := 0
-		for _, p := range cr.w.u.Log.Since(from2) {
+		for _, p := range cr.settledSince(from2, cr.c.Label+":ns2-addr") {
 			if p.QNameL == pgT2 && p.Action == cr.c.Label && strings.Contains(p.Outcome, "answered") {
 				tailed++
 			}
@@ -788,7 +788,7 @@ func attackPartialGlue(cr *caseRun) (question, *dns.Msg) {
 	g.Release()
 	reply1 := h.wait()
 	sub := 0
-	for _, p := range cr.w.u.Log.Since(h.from) {
+	for _, p := range cr.settledSince(h.from, "") {
 		if p.QNameL == pgNS2 && strings.HasSuffix(p.Action, ":ns2-addr") && strings.Contains(p.Outcome, "answered") {
 			sub++
 		}
@@ -918,6 +918,24 @@ func attackDeepJump(cr *caseRun) (question, *dns.Msg) {
 	cr.dbg("attack", q2, reply, h.from)
 	cr.sinkCheck("attack")
 	return q2, reply
+}
+
+// settledSince returns the packet log from position from once every scripted
+// packet of this case has its outcome recorded: a server notes the outcome
+// after the write, i.e. possibly after the resolver has already acted on the
+// datagram and the client has its reply (on a loaded machine, much later).
+// gated = the action label of the rule whose packets are still held at a gate
+// (they have no outcome yet and are not waited for).
+func (cr *caseRun) settledSince(from int, gated string) []authsim.Packet {
+	waitUntil(func() bool {
+		for _, p := range cr.w.u.Log.Since(from) {
+			if strings.HasPrefix(p.Action, cr.c.Label) && p.Action != gated && p.Outcome == "" {
+				return false
+			}
+		}
+		return true
+	})
+	return cr.w.u.Log.Since(from)
 }
 
 // waitUntil polls cond. The bound only keeps a wedged run from hanging; what
